@@ -32,6 +32,7 @@ struct ServerProfile {
     bool scramFinalInSuccess = false;
     int scramIter = 4096;
     int saltLen = 16;
+    int scramExt = 0;   // number of extension attributes a conforming server appends to its server-first message (RFC 5802 section 7)
     bool autoAck = true;        // answer <r/> with <a h/> at once
     bool autoRoster = true;     // answer roster get
     bool assignOtherJid = false;   // bind result carries another localpart/resource than asked for
